@@ -40,7 +40,7 @@ ASSUMPTIONS = [
 ]
 NONTRIVIAL_FLOOR = {"quick": 100, "thorough": 3000}
 
-NAMES = ["a", "b", "c.o", "x.tmp", "ig", "d", "e", "keep.o"]
+NAMES = ["a", "b", "c.o", "x.tmp", "ig", "d", "e", "keep.o", "ab"]
 BZR_PATTERNS = ["ig", "*.o", "*.tmp", "ig/", "./a", "./d/b", "d/b", "d/ig",
                 "**/e", "e", "!keep.o", "!!x.tmp", "b", "*.BASE"]
 GIT_PATTERNS = ["ig", "*.o", "*.tmp", "ig/", "/a", "/d/b", "d/b", "d/ig",
@@ -127,7 +127,18 @@ def gen_case(fmt):
         return {"fmt": fmt, "layout": sorted(lay.items()),
                 "nested": nested, "patterns": pats, "user": upats,
                 "conflicts": conflicts, "versioned": pre, "named": named,
-                "recurse": draw(st.integers(0, 9)) < 8}
+                "recurse": draw(st.integers(0, 9)) < 8,
+                # the add action: the default one, an explicit AddAction, or
+                # the size-limited one (limit 20 MB: nothing here is skipped)
+                "action": draw(st.sampled_from(
+                    [None, None, "plain"] + ([] if git else ["skip-large"]))),
+                # a dry run on the same tree object under another ignore
+                # file first (caches of a long-lived object must not leak
+                # into the real call)
+                "warm": draw(st.lists(st.sampled_from(
+                    GIT_PATTERNS if git else BZR_PATTERNS), max_size=3,
+                    unique=True)) if draw(st.sampled_from(
+                        [True] + [False] * (9 if git else 3))) else None}
     return build()
 
 
@@ -332,13 +343,36 @@ def run(case, env):
     _set_user_ignores(case["user"])
     try:
         wt = materialize(case, root)
+        if case.get("warm") is not None:
+            ign = os.path.join(root, ".gitignore" if git else ".bzrignore")
+            had = os.path.exists(ign)
+            keep = open(ign, "rb").read() if had else None
+            with open(ign, "wb") as f:
+                f.write("".join(p + "\n" for p in case["warm"]).encode())
+            pre = snapshot(wt, git)
+            wt.smart_add([root], recurse=True, save=False)
+            if had:
+                with open(ign, "wb") as f:
+                    f.write(keep)
+            else:
+                os.unlink(ign)
+            bz.age_files(root)
+            check(snapshot(wt, git) == pre, "C11/dry-run-changed-the-tree",
+                  {"warm": case["warm"]})
         before = snapshot(wt, git)
         ref = Ref(case, before)
         named = list(case["named"])
         args = [os.path.join(root, p) for p in named] or [root]
         refused = None
+        kw = {}
+        if case.get("action") == "plain":
+            from breezy.add import AddAction
+            kw["action"] = AddAction()
+        elif case.get("action") == "skip-large":
+            from breezy.add import AddWithSkipLargeAction
+            kw["action"] = AddWithSkipLargeAction()
         try:
-            wt.smart_add(args, recurse=case["recurse"])
+            wt.smart_add(args, recurse=case["recurse"], **kw)
         except (errors.ForbiddenControlFileError,
                 errors.BadFileKindError) as e:
             refused = type(e).__name__
@@ -367,6 +401,20 @@ def run(case, env):
     if git:
         new = set(p for p in new if lay.get(p) != "directory")
         want = set(p for p in want if lay.get(p) != "directory")
+    if new != want and case.get("warm") is not None:
+        # explained by the rules of the earlier dry run on the same object?
+        stale = Ref(dict(case, patterns=case["warm"]), before)
+        if case["patterns"]:
+            stale.lay[".gitignore" if git else ".bzrignore"] = "file"
+        stale.run(named, case["recurse"])
+        swant = set(stale.exp) - set(before)
+        if git:
+            swant = set(p for p in swant if lay.get(p) != "directory")
+        check(new != swant, "C11/ignore-file-change-not-seen-by-same-tree-"
+              "object-" + ("git" if git else "bzr"),
+              {"earlier_rules": case["warm"], "rules": case["patterns"],
+               "named": named, "extra": sorted(new - want),
+               "missing": sorted(want - new)})
     if new != want:
         extra, missing = sorted(new - want), sorted(want - new)
         sig = "C11/added-set-differs"
